@@ -86,6 +86,7 @@ G0 == [ vals |-> <<>>, stamp |-> 0,
         faulted |-> FALSE,     \* a change-directory fault was injected since the last commit
         consec |-> 0,          \* consecutive successful rollbacks
         clean |-> TRUE,        \* contents equal the last committed state
+        sw |-> FALSE,          \* the current stamp was set by a stamped write WITHOUT a change record
         dev |-> {},            \* deviations taken by this behaviour
         must |-> "ok",         \* what the property demands of the last call: "ok" | "err" | "either"
         last |-> <<>>,         \* the HistK most recent operations (forces TLC to keep histories apart)
@@ -438,7 +439,7 @@ Step(op, args, s, gg) ==
   /\ n' = n + 1
   /\ Log(op, args, s, gg)
 
-Alive == ~v.dead /\ n < Depth
+Alive == ~v.dead /\ n < Depth /\ ~g.sw
 
 (***************************************************************************)
 (* Actions.  Every action computes the implementation step under Dev (the  *)
@@ -590,6 +591,23 @@ ARollbackRefused ==
           /\ LET s == RollbackBefore(v, target, Dev) IN
              Step("rollback_before", <<target>>, s, [g EXCEPT !.must = "err"])
 
+\* C16 "a rollback whose change record is missing fails": stamped_write_maybe_with_changes(st, false) gives the vector a stamp
+\* for which no record was saved; the only continuation generated is the single rollback, which must be refused and change
+\* nothing (a record with that stamp left over from an abandoned future must not be applied)
+ASWrite ==
+  /\ "swrite" \in Ops /\ Alive /\ K > 0 /\ g.clean /\ ~g.sw
+  /\ \E st \in 1..MaxStamp :
+       /\ st > g.stamp
+       /\ LET SW(D) == LET s0 == Write(SetStamp(v, st), D) IN
+                       \* intended: a newly written stamp abandons every record at or above it (D38: the plain stamped write leaves them)
+                       IF "D38" \in D THEN s0 ELSE [s0 EXCEPT !.changes = {r \in s0.changes : r.f < st}]
+              s == SW(Dev)
+              d == {e \in Dev : SW(Dev \ {e}) # s}
+          IN Step("swrite", <<st>>, s, Tag([g EXCEPT !.stamp = st, !.sw = TRUE, !.avail = 0, !.must = "ok"], d))
+ARollbackAfterSWrite ==
+  /\ "swrite" \in Ops /\ ~v.dead /\ n < Depth /\ g.sw
+  /\ LET s == Rollback(v, Dev) IN Step("rollback", <<>>, s, [g EXCEPT !.must = "err"])
+
 \* change-directory faults (C16)
 AFaultDelete ==
   /\ "fault" \in Ops /\ Alive /\ g.clean /\ HasRecord(v)
@@ -603,7 +621,7 @@ AFaultCorrupt ==
           [g EXCEPT !.avail = 0, !.faulted = TRUE, !.must = "ok"])
 
 Next == \/ APush \/ ACheckedPush \/ ATruncate \/ AUpdate \/ ADelete \/ AFill \/ AWrite \/ AFlushReimport \/ AReset
-        \/ ACommit \/ ARollback \/ ARollbackBefore \/ ARollbackRefused \/ AFaultDelete \/ AFaultCorrupt
+        \/ ACommit \/ ARollback \/ ARollbackBefore \/ ARollbackRefused \/ AFaultDelete \/ AFaultCorrupt \/ ASWrite \/ ARollbackAfterSWrite
 
 Spec == Init /\ [][Next]_vars
 
